@@ -1874,3 +1874,401 @@ Proof.
     intros v f out HF Hdep Ho. rewrite (Hdep _ eq_refl), E4, E6, Eh.
     rewrite N.sub_diag. unfold take_at, takeN. cbn. now rewrite app_nil_r.
 Qed.
+
+(* ------------------------------------------------------------------ *)
+(* field sequences, every layout *)
+Fixpoint plain_fields2 (ps : list pfield) (us : list ufield) (got : rdata) (msg : bytes) (off : N) : Prop :=
+  match ps, us with
+  | (f, k) :: ps', u :: us' =>
+    match unpack_field got (uf_kind u) msg off with
+    | Ok (vals, off') =>
+      plain2 got k msg off off' vals /\ plain_fields2 ps' us' (got ++ combine (assigned u) vals) msg off'
+    | _ => False
+    end
+  | _, _ => True
+  end.
+
+Lemma fields_converse_all cap ps : forall us seen got msg off gotF off' out,
+  wfb msg -> sides_agree ps us = true -> layout_ok seen ps = true -> off <= lenN msg ->
+  keys_are seen got ->
+  unpack_fields us got msg off = Ok (gotF, off') ->
+  plain_fields2 ps us got msg off ->
+  present ps gotF ->
+  lenN msg + 320 <= cap -> lenN out = off ->
+  off <= off' <= lenN msg /\ (exists ext, gotF = got ++ ext) /\
+  pack_fields gotF ps cap (st0 out) = Ok (st0 (out ++ take_at msg off (off' - off))).
+Proof.
+  induction ps as [|[f k] ps IH]; intros us seen got msg off gotF off' out Hw Hs Hl Hoff Hkeys Hun Hplain Hpres Hcap Ho.
+  - destruct us; [|discriminate]. cbn in Hun. apply Ok_pair_inj in Hun. destruct Hun as [<- <-]. split; [lia|].
+    split; [exists []; now rewrite app_nil_r|]. cbn [pack_fields]. rewrite N.sub_diag.
+    unfold take_at, takeN. cbn. now rewrite app_nil_r.
+  - destruct us as [|u us]; [discriminate|]. cbn [sides_agree] in Hs.
+    apply andb_prop in Hs. destruct Hs as [Hs Hs']. apply andb_prop in Hs. destruct Hs as [Hname Hk].
+    apply String.eqb_eq in Hname.
+    cbn [layout_ok] in Hl. apply andb_prop in Hl. destruct Hl as [Hl Hl'].
+    apply andb_prop in Hl. destruct Hl as [Hl Hlast]. apply andb_prop in Hl. destruct Hl as [Hl Hsz].
+    apply andb_prop in Hl. destruct Hl as [Hfresh Hdist].
+    set (names := knames f k) in *.
+    assert (Hnf : forall g, In g names -> ~ In g seen).
+    { intros g Hg. rewrite forallb_forall in Hfresh. specialize (Hfresh g Hg).
+      apply existsb_eqb_notin. now destruct (existsb _ seen). }
+    assert (Hnd : NoDup names) by (apply names_distinct_nodup, Hdist).
+    cbn [unpack_fields] in Hun. cbn [plain_fields2] in Hplain.
+    destruct (unpack_field got (uf_kind u) msg off) as [[vals o]| | |] eqn:Eu; try contradiction.
+    destruct Hplain as [Hpl Hplain]. cbn [bind fst snd] in Hun.
+    rewrite (assigned_knames u f k Hk Hname) in Hun, Hplain. fold names in Hun, Hplain.
+    pose proof (unpack_field_arity got k (uf_kind u) msg off vals o f Hk Eu) as Har. fold names in Har.
+    destruct (field_converse_all got k (uf_kind u) msg off vals o cap Hw Hk Hoff Eu Hpl Hcap) as [Hro Hpack].
+    set (got' := got ++ combine names vals) in *.
+    assert (Hsub : forall g, In g names -> vget got g = None).
+    { intros g Hg. destruct (vget got g) eqn:Eg; [|reflexivity]. exfalso. apply (Hnf g Hg), Hkeys. congruence. }
+    assert (Hkeys' : keys_are (names ++ seen) got').
+    { intro g. unfold got'. rewrite vget_app, in_app_iff. split.
+      - intros [Hg|Hg].
+        + rewrite (Hsub g Hg). exact (forall2_in_some _ _ _ g (vget_combine names vals Hnd Har) Hg).
+        + apply Hkeys in Hg. destruct (vget got g); congruence.
+      - destruct (vget got g) eqn:Eg; [intros _; right; apply Hkeys; congruence|].
+        intro Hc. left. apply vget_some_in, combine_keys in Hc. exact Hc. }
+    assert (Hthis : forall ext, pack_field (got' ++ ext) f k cap (st0 out) = Ok (st0 (out ++ take_at msg off (o - off)))).
+    { intro ext. apply Hpack; [|intros s Es|exact Ho].
+      - unfold got'. apply forall2_extend; [exact (vget_combine names vals Hnd Har)|exact Hsub].
+      - rewrite Es in Hsz. apply existsb_eqb_in in Hsz. apply Hkeys in Hsz.
+        unfold vget_n, got'. rewrite !vget_app. destruct (vget got s); [reflexivity|congruence]. }
+    destruct (uf_exit u && (o =? lenN msg)) eqn:Hex.
+    + apply Ok_pair_inj in Hun. destruct Hun as [<- <-].
+      assert (ps = []).
+      { destruct ps as [|[f' k'] ps']; [reflexivity|]. exfalso.
+        pose proof (Forall_inv (Forall_inv_tail Hpres)) as Hp. cbn [fst snd] in Hp.
+        destruct (knames_nonempty f' k') as [g Hg]. rewrite Forall_forall in Hp. apply (Hp g Hg).
+        destruct (vget got' g) eqn:Eg; [|reflexivity]. exfalso.
+        apply (layout_ok_fresh _ _ f' k' g Hl' (or_introl eq_refl) Hg). apply Hkeys'. congruence. }
+      subst ps. split; [lia|]. split; [exists (combine names vals); reflexivity|].
+      cbn [pack_fields]. specialize (Hthis []). rewrite app_nil_r in Hthis. rewrite Hthis. reflexivity.
+    + destruct (IH us (names ++ seen) got' msg o gotF off' (out ++ take_at msg off (o - off)))
+        as [Hr2 [[ext ->] Hp2]]; try assumption; try lia.
+      { now apply Forall_inv_tail in Hpres. }
+      { rewrite lenN_app, lenN_take_at by lia. lia. }
+      split; [lia|]. split; [exists (combine names vals ++ ext); unfold got'; now rewrite app_assoc|].
+      cbn [pack_fields]. rewrite Hthis. cbn [bind].
+      rewrite Hp2. f_equal. f_equal. rewrite <- app_assoc. f_equal.
+      replace (off' - off) with ((o - off) + (off' - o)) by lia.
+      rewrite take_at_split by lia. f_equal. unfold take_at. f_equal. f_equal. lia.
+Qed.
+
+Theorem fields_converse_all_top cap ps us msg off gotF off' out :
+  wfb msg -> sides_agree ps us = true -> layout_ok [] ps = true -> off <= lenN msg ->
+  unpack_fields us [] msg off = Ok (gotF, off') ->
+  plain_fields2 ps us [] msg off -> present ps gotF ->
+  lenN msg + 320 <= cap -> lenN out = off ->
+  off <= off' <= lenN msg /\
+  pack_fields gotF ps cap (st0 out) = Ok (st0 (out ++ take_at msg off (off' - off))).
+Proof.
+  intros Hw Hs Hl Hoff Hun Hpl Hpr Hcap Ho.
+  destruct (fields_converse_all cap ps us [] [] msg off gotF off' out) as [H1 [_ H2]]; try assumption.
+  { intro g. cbn. split; [intros []|congruence]. }
+  split; assumption.
+Qed.
+
+(* ------------------------------------------------------------------ *)
+(* records, every type: what UnpackRR reads from canonical octets msg[off:off']
+   with a non-empty RDATA, packRR writes back as the same octets *)
+Theorem rr_converse_all msg off r off' L ls cap out :
+  wfb msg -> unpack_rr msg off = Ok (r, off') ->
+  find_layout layouts (rr_kind r) = Some L ->
+  rr_rdlength r <> 0 ->
+  valid_wire ls = true -> off + lenN (wire_name ls) <= lenN msg ->
+  take_at msg off (lenN (wire_name ls)) = wire_name ls ->
+  plain_fields2 (tl_pack L) (tl_unpack L) [] (takeN off' msg) (off + lenN (wire_name ls) + 10) ->
+  present (tl_pack L) (rr_data r) ->
+  lenN msg + 320 <= cap -> lenN out = off ->
+  off < off' <= lenN msg /\
+  pack_rr r cap false (st0 out) = Ok (st0 (out ++ take_at msg off (off' - off))).
+Proof.
+  intros Hw H Hfind Hrdl Hls Hwl Ewire Hplain Hpres Hcap Ho.
+  pose proof (wire_name_len_pos ls) as Hwn1.
+  unfold unpack_rr in H. inv_bind H. destruct a as [[hd off1] tmsg].
+  unfold unpack_rr_header in Ha.
+  destruct (off =? lenN msg) eqn:E0; [lia|].
+  assert (Hun : unpack_name msg off = Ok (show_name ls, off + lenN (wire_name ls))).
+  { assert (Emsg : msg = takeN off msg ++ wire_name ls ++ dropN (off + lenN (wire_name ls)) msg).
+    { rewrite <- Ewire at 1. rewrite app_assoc, <- takeN_split by lia. symmetry. apply firstn_skipn. }
+    set (pre := takeN off msg) in *. set (post := dropN (off + lenN (wire_name ls)) msg) in *.
+    assert (Eoff : lenN pre = off) by (apply lenN_takeN'; lia).
+    rewrite Emsg, <- Eoff. apply unpack_name_exact, Hls. }
+  rewrite Hun in Ha. cbn [bind fst snd] in Ha.
+  set (o1 := off + lenN (wire_name ls)) in *.
+  unfold unpack_fixed in Ha.
+  destruct (lenN msg <? o1 + 2) eqn:E1; [discriminate|]. cbn [bind fst snd] in Ha.
+  destruct (lenN msg <? o1 + 2 + 2) eqn:E2; [discriminate|]. cbn [bind fst snd] in Ha.
+  destruct (lenN msg <? o1 + 2 + 2 + 4) eqn:E3; [discriminate|]. cbn [bind fst snd] in Ha.
+  destruct (lenN msg <? o1 + 2 + 2 + 4 + 2) eqn:E4; [discriminate|]. cbn [bind fst snd] in Ha.
+  set (T := take_at msg o1 2) in *. set (C := take_at msg (o1 + 2) 2) in *.
+  set (TT := take_at msg (o1 + 2 + 2) 4) in *. set (RL := take_at msg (o1 + 2 + 2 + 4) 2) in *.
+  set (rdl := be RL 0) in *.
+  destruct (lenN msg <? o1 + 2 + 2 + 4 + 2 + rdl) eqn:E5; [discriminate|].
+  injection Ha as <- <- <-.
+  assert (HT : wfb T /\ lenN T = 2) by (split; [apply wfb_take_at, Hw|apply lenN_take_at; lia]).
+  assert (HC : wfb C /\ lenN C = 2) by (split; [apply wfb_take_at, Hw|apply lenN_take_at; lia]).
+  assert (HTT : wfb TT /\ lenN TT = 4) by (split; [apply wfb_take_at, Hw|apply lenN_take_at; lia]).
+  assert (HRL : wfb RL /\ lenN RL = 2) by (split; [apply wfb_take_at, Hw|apply lenN_take_at; lia]).
+  assert (Hrdl16 : rdl < 65536).
+  { unfold rdl. pose proof (be_bound RL (proj1 HRL)) as Hb. rewrite (proj2 HRL) in Hb. exact Hb. }
+  set (off1 := o1 + 2 + 2 + 4 + 2) in *.
+  set (tmsg := takeN (off1 + rdl) msg) in *.
+  assert (Htl : lenN tmsg = off1 + rdl) by (apply lenN_takeN'; lia).
+  unfold unpack_rr_with_header in H. cbn [h_type h_name h_class h_ttl h_rdlength] in H.
+  rewrite Htl in H.
+  replace (off1 + rdl <? off1) with false in H by lia.
+  replace (off1 + rdl <? off1 + rdl) with false in H by lia.
+  destruct (rdl =? 0) eqn:Er0.
+  { injection H as <- <-. cbn [rr_rdlength] in Hrdl. lia. }
+  destruct (find_layout layouts (kind_of_type (be T 0))) as [L'|] eqn:EL; [|discriminate].
+  inv_bind H. destruct a as [gotF e]. cbn [fst snd] in H.
+  destruct (e =? off1 + rdl) eqn:Ee; [|discriminate]. injection H as <- <-.
+  cbn [rr_kind rr_data rr_rdlength] in *. rewrite EL in Hfind. injection Hfind as ->.
+  assert (Ee' : e = off1 + rdl) by lia. subst e.
+  split; [lia|].
+  (* the packer *)
+  unfold pack_rr. cbn [rr_kind rr_data rr_name rr_type rr_class rr_ttl]. rewrite EL.
+  unfold pack_header. cbn [rr_name rr_type rr_class rr_ttl]. rewrite poff_st0, Ho.
+  bfalse (off =? cap).
+  rewrite (pack_name_at (show_name ls) ls);
+    [|apply is_fqdn_show_name, Hls|apply parse_show_name, Hls|apply valid_wire_len_ok, Hls|lia].
+  cbn [bind]. rewrite !u16_be, u32_be by tauto.
+  rewrite pack_fixed_room by (rewrite lenN_app; lia). cbn [bind].
+  rewrite pack_fixed_room by (rewrite !lenN_app; lia). cbn [bind].
+  rewrite pack_fixed_room by (rewrite !lenN_app; lia). cbn [bind].
+  rewrite pack_fixed_room by (rewrite !lenN_app; cbn [u16 lenN length N.of_nat]; lia). cbn [bind].
+  set (P := (((out ++ wire_name ls) ++ T) ++ C) ++ TT).
+  assert (HP : lenN P = off1 - 2). { unfold P. rewrite !lenN_app. lia. }
+  assert (Hplain' : plain_fields2 (tl_pack L) (tl_unpack L) [] tmsg off1).
+  { unfold tmsg. replace off1 with (off + lenN (wire_name ls) + 10) at 2 by lia. exact Hplain. }
+  destruct (fields_converse_all_top cap (tl_pack L) (tl_unpack L) tmsg off1 gotF (off1 + rdl) (P ++ u16 0))
+    as [_ Hpf]; try assumption; try lia.
+  { apply wfb_takeN, Hw. }
+  { eapply sides_agree_of, EL. }
+  { eapply layout_ok_of, EL. }
+  { rewrite lenN_app, HP. cbn [u16 lenN length N.of_nat]. lia. }
+  rewrite Hpf. cbn [bind].
+  set (RD := take_at tmsg off1 (off1 + rdl - off1)).
+  assert (HRD : lenN RD = rdl). { unfold RD. rewrite lenN_take_at by lia. lia. }
+  unfold poff. cbn [st0 pn_out pn_cm].
+  replace (lenN ((P ++ u16 0) ++ RD) - lenN (P ++ u16 0)) with rdl by (rewrite !lenN_app; lia).
+  replace (lenN (P ++ u16 0)) with (lenN P + 2) by (rewrite lenN_app; reflexivity).
+  bfalse (65535 <? rdl). bfalse (lenN P + 2 <? 2).
+  f_equal. unfold st0. f_equal.
+  replace (N.to_nat (lenN P + 2 - 2)) with (length P) by (unfold lenN; lia).
+  replace (N.to_nat (lenN P + 2 - 1)) with (length (P ++ [rdl / 256]))
+    by (rewrite app_length; unfold lenN; cbn [length]; lia).
+  change (u16 0) with [0; 0]. rewrite <- app_assoc. cbn [app]. rewrite set_at_exact.
+  replace (P ++ rdl / 256 :: 0 :: RD) with ((P ++ [rdl / 256]) ++ 0 :: RD)
+    by (rewrite <- app_assoc; reflexivity).
+  rewrite set_at_exact. rewrite <- app_assoc. cbn [app].
+  change (rdl / 256 :: rdl mod 256 :: RD) with ([rdl / 256; rdl mod 256] ++ RD).
+  rewrite (u16_small rdl) by lia. unfold rdl at 1. rewrite u16_be by tauto.
+  unfold P. rewrite <- !app_assoc. f_equal.
+  assert (ERD : RD = take_at msg off1 rdl).
+  { unfold RD, tmsg. replace (off1 + rdl - off1) with rdl by lia. apply take_at_takeN. lia. }
+  rewrite ERD, <- Ewire. unfold T, C, TT, RL.
+  replace (off1 + rdl - off) with (lenN (wire_name ls) + (2 + (2 + (4 + (2 + rdl))))) by lia.
+  rewrite take_at_split by lia. f_equal. fold o1.
+  rewrite take_at_split by lia. f_equal.
+  rewrite take_at_split by lia. f_equal.
+  rewrite take_at_split by lia. f_equal.
+  rewrite take_at_split by lia. f_equal.
+Qed.
+
+(* ================================================================== *)
+(* non-vacuity: concrete records of the kinds added here, between other octets *)
+Definition ex_hdr (t rdl : N) : bytes := [7; 7; 7] ++ wire_name ex_owner ++ [0; t; 0; 1; 0; 0; 14; 16; 0; rdl].
+Definition ex_nsec_wire : bytes := ex_hdr 47 14 ++ [1; 97; 0; 0; 6; 64; 1; 0; 0; 0; 3; 1; 1; 64] ++ [9; 9].
+Definition ex_https_wire : bytes :=
+  ex_hdr 65 35 ++ [0; 1; 0; 0; 0; 0; 4; 0; 1; 0; 3; 0; 1; 0; 6; 2; 104; 50; 2; 104; 51; 0; 3; 0; 2; 1; 187;
+                   0; 4; 0; 4; 192; 0; 2; 1] ++ [9; 9].
+Definition ex_opt_wire : bytes :=
+  ex_hdr 41 38 ++ [0; 8; 0; 7; 0; 1; 24; 0; 10; 1; 2; 0; 10; 0; 8; 1; 2; 3; 4; 5; 6; 7; 8; 0; 15; 0; 4; 0; 23; 104; 105;
+                   0; 18; 0; 3; 1; 97; 0] ++ [9; 9].
+Definition ex_apl_wire : bytes :=
+  ex_hdr 42 19 ++ [0; 1; 20; 3; 10; 1; 16; 0; 2; 64; 136; 32; 1; 13; 184; 0; 0; 0; 1] ++ [9; 9].
+Definition ex_ipseckey_wire : bytes := ex_hdr 45 10 ++ [10; 3; 2; 2; 103; 119; 0; 1; 2; 3] ++ [9; 9].
+Definition ex_hip_wire : bytes := ex_hdr 55 17 ++ [2; 2; 0; 3; 9; 9; 1; 2; 3; 1; 97; 0; 1; 98; 1; 99; 0] ++ [9; 9].
+
+(* the hypotheses of [rr_converse_all] and [rr_reunpack] and the conclusion of the former *)
+Definition converse_example (w : bytes) (n : N) : Prop :=
+  exists r L,
+    wfb w /\ unpack_rr w 3 = Ok (r, n) /\
+    find_layout layouts (rr_kind r) = Some L /\ rr_rdlength r <> 0 /\ valid_wire ex_owner = true /\
+    take_at w 3 (lenN (wire_name ex_owner)) = wire_name ex_owner /\
+    plain_fields2 (tl_pack L) (tl_unpack L) [] (takeN n w) (3 + lenN (wire_name ex_owner) + 10) /\
+    present (tl_pack L) (rr_data r) /\ values_ok (rr_data r) (tl_pack L) /\
+    pack_rr r 400 false (st0 [7; 7; 7]) = Ok (st0 (takeN n w)).
+
+Ltac ex_start :=
+  unfold converse_example; eexists; eexists;
+  split; [unfold wfb; vm_compute; repeat constructor|];
+  split; [vm_compute; reflexivity|]; split; [vm_compute; reflexivity|];
+  split; [cbn; lia|]; split; [reflexivity|]; split; [vm_compute; reflexivity|].
+
+Ltac ex_plain :=
+  repeat (vm_compute;
+          match goal with
+          | |- _ /\ _ => split
+          | |- True => exact I
+          | |- _ = _ => reflexivity
+          | |- _ = _ -> False => let H := fresh in intro H; discriminate H
+          | |- _ = _ -> _ = _ => let H := fresh in intro H; first [discriminate H|reflexivity]
+          | |- Forall _ _ => constructor
+          | |- forall x, Some _ = Some x -> _ => let x := fresh in let H := fresh in intros x H; apply Some_inj in H; subst x
+          | |- forall x, None = Some x -> _ => let x := fresh in let H := fresh in intros x H; discriminate H
+          end).
+
+Example nsec_converse_example : converse_example ex_nsec_wire 35.
+Proof.
+  ex_start. split. { ex_plain. exists [[97]]. split; reflexivity. }
+  split; [solve [ex_plain]|]. split; [solve [ex_plain]|]. vm_compute. reflexivity.
+Qed.
+
+Example https_converse_example : converse_example ex_https_wire 56.
+Proof.
+  ex_start. split. { ex_plain. exists []. split; reflexivity. }
+  split; [solve [ex_plain]|]. split; [solve [ex_plain]|]. vm_compute. reflexivity.
+Qed.
+
+Example opt_converse_example : converse_example ex_opt_wire 59.
+Proof.
+  ex_start. split; [solve [ex_plain]|].
+  split; [solve [ex_plain]|]. split; [solve [ex_plain]|]. vm_compute. reflexivity.
+Qed.
+
+Example apl_converse_example : converse_example ex_apl_wire 40.
+Proof.
+  ex_start. split; [solve [ex_plain]|].
+  split; [solve [ex_plain]|]. split; [solve [ex_plain]|]. vm_compute. reflexivity.
+Qed.
+
+Example ipseckey_converse_example : converse_example ex_ipseckey_wire 31.
+Proof.
+  ex_start. split. { ex_plain. intros _. exists [[103; 119]]. split; reflexivity. }
+  split; [solve [ex_plain]|]. split; [solve [ex_plain]|]. vm_compute. reflexivity.
+Qed.
+
+Example hip_converse_example : converse_example ex_hip_wire 38.
+Proof.
+  ex_start. split. { ex_plain. - exists [[97]]. split; reflexivity. - exists [[98]; [99]]. split; reflexivity. }
+  split; [solve [ex_plain]|]. split; [solve [ex_plain]|]. vm_compute. reflexivity.
+Qed.
+
+(* ================================================================== *)
+(* accepted wire forms that do NOT re-pack to themselves.  [repack k w]: decode
+   the octets w as one field of kind k, pack the value into an empty buffer. *)
+Definition decoded (k : fkind) (w : bytes) : option (list fval) :=
+  match unpack_field [] k w 0 with Ok (v, _) => Some v | _ => None end.
+Definition repack (k : fkind) (w : bytes) : option bytes :=
+  match unpack_field [] k w 0 with
+  | Ok ([x], _) =>
+    match pack_field [("F"%string, x)] "F" k 5000 (st0 []) with Ok st => Some (pn_out st) | _ => None end
+  | _ => None
+  end.
+Definition reunpack (k : fkind) (w : bytes) : option (list fval) :=
+  match repack k w with Some w' => decoded k w' | None => None end.
+
+(* a bitmap block that ends in a zero octet (RFC 4034 4.1.2 forbids it, the
+   decoder accepts it): the block is written back shorter, an all-zero block
+   not at all *)
+Lemma nsec_trailing_zero_refuted :
+  decoded K_nsec [0; 2; 64; 0] = Some [V_ns [1]] /\ repack K_nsec [0; 2; 64; 0] = Some [0; 1; 64] /\
+  ~ nsec_plain 5 [0; 2; 64; 0] 0 /\
+  decoded K_nsec [0; 1; 0] = Some [V_ns []] /\ repack K_nsec [0; 1; 0] = Some [].
+Proof.
+  split; [vm_compute; reflexivity|]. split; [vm_compute; reflexivity|]. split.
+  - intro H. vm_compute in H. destruct H as [H _]. apply H. reflexivity.
+  - split; vm_compute; reflexivity.
+Qed.
+
+(* APL 1:10.1.1.1/8 with all four address octets present: accepted; packed as
+   the masked, trimmed 10/8; and the re-packed octets decode to another value *)
+Lemma apl_bits_beyond_prefix_refuted :
+  decoded K_apl [0; 1; 8; 4; 10; 1; 1; 1] = Some [V_apl [(false, 8, [10; 1; 1; 1])]] /\
+  repack K_apl [0; 1; 8; 4; 10; 1; 1; 1] = Some [0; 1; 8; 1; 10] /\
+  reunpack K_apl [0; 1; 8; 4; 10; 1; 1; 1] = Some [V_apl [(false, 8, [10; 0; 0; 0])]] /\
+  ~ apl_masked (false, 8, [10; 1; 1; 1]).
+Proof.
+  split; [vm_compute; reflexivity|]. split; [vm_compute; reflexivity|]. split; [vm_compute; reflexivity|].
+  intro H. vm_compute in H. discriminate H.
+Qed.
+
+(* EDNS0 options the option codecs normalise: LLQ longer than 18 octets, UL with
+   a zero key lease, SUBNET family 0 with trailing octets, SUBNET with address
+   bits beyond the source prefix, EXPIRE longer than 4 octets, TCP-KEEPALIVE
+   with timeout 0, REPORTING with octets after the name, REPORTING with a
+   compression pointer inside the option *)
+Lemma opt_normalised_refuted :
+  map (repack K_opt)
+    [ [0; 1; 0; 19; 7; 7; 7; 7; 7; 7; 7; 7; 7; 7; 7; 7; 7; 7; 7; 7; 7; 7; 7];
+      [0; 2; 0; 8; 0; 0; 0; 5; 0; 0; 0; 0];
+      [0; 8; 0; 5; 0; 0; 0; 0; 9];
+      [0; 8; 0; 8; 0; 1; 8; 0; 10; 1; 1; 1];
+      [0; 9; 0; 5; 1; 2; 3; 4; 5];
+      [0; 11; 0; 2; 0; 0];
+      [0; 18; 0; 5; 1; 97; 0; 9; 9];
+      [0; 18; 0; 7; 1; 97; 192; 4; 1; 98; 0] ] =
+    [ Some [0; 1; 0; 18; 7; 7; 7; 7; 7; 7; 7; 7; 7; 7; 7; 7; 7; 7; 7; 7; 7; 7];
+      Some [0; 2; 0; 4; 0; 0; 0; 5];
+      Some [0; 8; 0; 4; 0; 0; 0; 0];
+      Some [0; 8; 0; 5; 0; 1; 8; 0; 10];
+      Some [0; 9; 0; 4; 1; 2; 3; 4];
+      Some [0; 11; 0; 0];
+      Some [0; 18; 0; 3; 1; 97; 0];
+      Some [0; 18; 0; 5; 1; 97; 1; 98; 0] ].
+Proof. vm_compute. reflexivity. Qed.
+
+(* SVCB: a mandatory list that is not sorted is written back sorted; an alpn
+   value holding an empty id is written back EMPTY by the model (the Go pack()
+   of such a value returns an error instead, which the (code, packed value)
+   level of Model/Rdata.v cannot express), and what is re-packed decodes to a
+   different value (the reported length) *)
+Lemma svcb_normalised_refuted :
+  repack K_svcb [0; 0; 0; 4; 0; 4; 0; 1] = Some [0; 0; 0; 4; 0; 1; 0; 4] /\
+  decoded K_svcb [0; 1; 0; 1; 0] = Some [V_pairs [(1, [], 1)]] /\
+  repack K_svcb [0; 1; 0; 1; 0] = Some [0; 1; 0; 0] /\
+  reunpack K_svcb [0; 1; 0; 1; 0] = Some [V_pairs [(1, [], 0)]] /\
+  ~ alpn_len_ok (1, [], 1).
+Proof.
+  split; [vm_compute; reflexivity|]. split; [vm_compute; reflexivity|]. split; [vm_compute; reflexivity|].
+  split; [vm_compute; reflexivity|]. intro H. specialize (H eq_refl). discriminate H.
+Qed.
+
+(* a compression pointer inside RDATA is followed by the decoder; the packer
+   (without a compression map) writes the name in full *)
+Lemma names_pointer_refuted :
+  decoded (K_names false) [1; 97; 0; 192; 0] = Some [V_ss [[97; 46]; [97; 46]]] /\
+  repack (K_names false) [1; 97; 0; 192; 0] = Some [1; 97; 0; 1; 97; 0].
+Proof. split; vm_compute; reflexivity. Qed.
+
+(* an octet string whose text exceeds packStringOctet's 1025 octets is decoded
+   but cannot be packed again *)
+Lemma octet_too_long_refuted :
+  decoded K_octet (repeat 92 520) <> None /\ repack K_octet (repeat 92 520) = None.
+Proof. split; [vm_compute; discriminate|vm_compute; reflexivity]. Qed.
+
+(* records.  [rr_repack w]: UnpackRR at offset 0, packRR into an empty buffer *)
+Definition rr_repack (w : bytes) : option bytes :=
+  match unpack_rr w 0 with
+  | Ok (r, _) => match pack_rr r 400 false (st0 []) with Ok st => Some (pn_out st) | _ => None end
+  | _ => None
+  end.
+(* an MX with RDLENGTH 0: UnpackRR returns it without RDATA fields, packRR
+   writes the zero preference (hypothesis rr_rdlength r <> 0);
+   an SOA cut after its two names: unpack() returns early, pack() writes the
+   five absent integers as zeros (hypothesis present);
+   an NSEC whose bitmap block ends in a zero octet *)
+Lemma record_repack_refuted :
+  rr_repack [0; 0; 15; 0; 1; 0; 0; 0; 0; 0; 0] = Some [0; 0; 15; 0; 1; 0; 0; 0; 0; 0; 2; 0; 0] /\
+  rr_repack [0; 0; 6; 0; 1; 0; 0; 0; 0; 0; 2; 0; 0] =
+    Some [0; 0; 6; 0; 1; 0; 0; 0; 0; 0; 22; 0; 0; 0; 0; 0; 0; 0; 0; 0; 0; 0; 0; 0; 0; 0; 0; 0; 0; 0; 0; 0; 0] /\
+  rr_repack [0; 0; 47; 0; 1; 0; 0; 0; 0; 0; 5; 0; 0; 2; 64; 0] = Some [0; 0; 47; 0; 1; 0; 0; 0; 0; 0; 4; 0; 0; 1; 64].
+Proof. split; [vm_compute; reflexivity|]. split; vm_compute; reflexivity. Qed.
+
+(* the number of record types the theorems range over *)
+Lemma layouts_count : length layouts = 81%nat.
+Proof. vm_compute. reflexivity. Qed.
